@@ -413,5 +413,26 @@ fn main() {
         |h, st| h.tape_search("c12.units_fx", cases, 200, st, |tape, st| unit_prop(&model_fx, &ix_fx, root_fx, tape, st)),
         |case| replay_tape(case, |tape, st| unit_prop(&model_fx, &ix_fx, root_fx, tape, st)),
     );
+    let fnodes = fixture::fuzzing::mini_nodes();
+    h.check(
+        "c12.fuzz_replay",
+        "seed inputs of the fz_parse campaign and saved fuzzer findings (byte layout: start node index, split position, bytes) under the C12 oracles",
+        true,
+        |_h, st| {
+            for seed in fixture::fuzzing::PARSE_SEEDS {
+                st.eval();
+                if let Err(msg) = vcore::runner::guarded(|| fixture::fuzzing::parse_case(&fnodes, seed).map(|_| ())) {
+                    return Some(vcore::runner::Failure {
+                        message: msg,
+                        case: json!({ "hex": hex(seed) }),
+                    });
+                }
+                st.nontrivial(seed);
+            }
+            None
+        },
+        |case| fixture::fuzzing::parse_case(&fnodes, &unhex(case["hex"].as_str().unwrap_or(""))).map(|_| ()),
+    );
+    fixture::fuzzing::campaign_part(&mut h, "C12", "c12.fuzz_campaign");
     h.finish();
 }
